@@ -255,6 +255,10 @@ impl<H: Hal, T: Transport> VirtIOConsole<H, T> {
 
 impl<H: Hal, T: Transport> Write for VirtIOConsole<H, T> {
     fn write_str(&mut self, s: &str) -> fmt::Result {
+        if s.is_empty() {
+            // Nothing to send; the queue doesn't accept empty buffers.
+            return Ok(());
+        }
         self.send_bytes(s.as_bytes()).map_err(|e| {
             error!("Error writing to conosel: {}", e);
             fmt::Error
